@@ -25,12 +25,15 @@ type c18Case struct {
 	Target  string `json:"target,omitempty"` // fault: file (relative, with extension)
 	Fault   string `json:"fault,omitempty"`  // deleted | truncated | garbage | symlink | directory
 	Cut     int    `json:"cut,omitempty"`
+	Reload  bool   `json:"reload,omitempty"` // fault: the valid tree was loaded once in this process before the fault is applied
 	Garbage int    `json:"garbage,omitempty"`
 }
 
 var c18Exts = []string{".tw", ".tw.html", ".html"}
 var c18Spellings = []struct{ dir, real string }{
 	{"t", "t"}, {"t/", "t"}, {"t//", "t"}, {"./t", "t"}, {"t/.", "t"}, {"r/../t", "t"}, {"r/t", "r/t"}, {"./r/t/", "r/t"},
+	// spellings that resolve to the working directory itself
+	{".", "."}, {"./", "."}, {"r/..", "."}, {"r/../r/t/../..", "."},
 }
 
 // candidate file names (EXT is replaced by the extension)
@@ -45,7 +48,7 @@ func c18Name(cand, ext string) string { return strings.ReplaceAll(cand, "EXT", e
 func c18TreeBuild(cs c18Case) (t Tree, want map[string]string, layouts map[string]bool) {
 	ext := c18Exts[cs.Ext]
 	sp := c18Spellings[cs.Spell]
-	t = Tree{Dir: sp.dir, RealDir: sp.real, Ext: ext, Files: map[string]string{}, Extra: []string{"r"}}
+	t = Tree{Dir: sp.dir, RealDir: sp.real, Ext: ext, Files: map[string]string{}, Extra: []string{"r", "r/t"}}
 	want = map[string]string{}
 	layouts = map[string]bool{}
 	for i, ix := range cs.Files {
@@ -221,7 +224,21 @@ func c18CheckFault(cs c18Case) (ok bool, sig, expected, observed string) {
 		t.Files[cs.Target] = c18Garbage[cs.Garbage]
 		broken, hasContent = c18Garbage[cs.Garbage], true
 	}
-	t.write()
+	if cs.Reload {
+		// first the intact tree is loaded; the fault is applied afterwards and the tree loaded again in the same process
+		valid := Tree{Dir: "t", Ext: ".tw", Files: base.files}
+		valid.write()
+		if _, lo0 := valid.load(); lo0.Kind != KOut {
+			return false, "valid-tree-does-not-load", "the intact tree loads", lo0.String()
+		}
+		if c, has := t.Files[cs.Target]; has {
+			t.rewriteFile(cs.Target, c, false)
+		} else {
+			t.rewriteFile(cs.Target, "", true)
+		}
+	} else {
+		t.write()
+	}
 	switch cs.Fault {
 	case "symlink":
 		must(os.MkdirAll(filepath.Dir(t.abs(cs.Target)), 0o755))
@@ -236,7 +253,14 @@ func c18CheckFault(cs c18Case) (ok bool, sig, expected, observed string) {
 	if cs.Fault == "garbage" {
 		desc += fmt.Sprintf(" %q", broken)
 	}
-	tpl, lo := t.load()
+	var tpl *textwire.Template
+	var lo Outcome
+	if cs.Reload {
+		desc += " (after the intact tree had been loaded in the same process)"
+		tpl, lo = t.loadKeep()
+	} else {
+		tpl, lo = t.load()
+	}
 	if lo.Kind == KPanic || lo.Kind == KHang {
 		return false, "load-" + lo.Kind + "@" + lo.Site, "no crash for " + desc, lo.String()
 	}
@@ -364,8 +388,10 @@ func c18Run(c *Ctx) {
 				continue
 			}
 			for _, flt := range []string{"deleted", "symlink", "directory"} {
-				if !do(c18Case{Mode: "fault", Base: bi, Target: f, Fault: flt}, true) {
-					return
+				for _, reload := range []bool{false, true} {
+					if !do(c18Case{Mode: "fault", Base: bi, Target: f, Fault: flt, Reload: reload}, true) {
+						return
+					}
 				}
 			}
 			for cut := 0; cut < len(base.files[f]); cut++ {
@@ -374,7 +400,14 @@ func c18Run(c *Ctx) {
 				}
 			}
 			for g := range c18Garbage {
-				if !do(c18Case{Mode: "fault", Base: bi, Target: f, Fault: "garbage", Garbage: g}, true) {
+				for _, reload := range []bool{false, true} {
+					if !do(c18Case{Mode: "fault", Base: bi, Target: f, Fault: "garbage", Garbage: g, Reload: reload}, true) {
+						return
+					}
+				}
+			}
+			for cut := 0; cut < len(base.files[f]); cut += 3 {
+				if !do(c18Case{Mode: "fault", Base: bi, Target: f, Fault: "truncated", Cut: cut, Reload: true}, true) {
 					return
 				}
 			}
@@ -426,7 +459,7 @@ func init() {
 	p := &Property{
 		ID:    "C18",
 		Level: "fault_enumeration",
-		Rule: "trees: every set of <=k files out of 15 candidate names (four nesting depths; names ending in the extension, containing it in the middle, followed by .bak, doubled extension, a directory whose name contains the extension, a hidden file, a name that is only the extension) x 3 extensions x 8 directory spellings (trailing slashes, ./, /., parent segments, nested) x first file layout or not: the registered names must be exactly the relative paths minus extension of the files whose name ends in the extension, each renders its content, layouts and unknown names are not found, EvaluateFile equals EvaluateString; faults: for every file of three valid trees (pages, layouts, components, ~ aliases): deleted, dangling symlink, a directory in its place, truncated at every byte prefix, replaced by each of 12 garbage inputs. " +
+		Rule: "trees: every set of <=k files out of 15 candidate names (four nesting depths; names ending in the extension, containing it in the middle, followed by .bak, doubled extension, a directory whose name contains the extension, a hidden file, a name that is only the extension) x 3 extensions x 12 directory spellings (trailing slashes, ./, /., parent segments, nested, and four that resolve to the working directory itself) x first file layout or not: the registered names must be exactly the relative paths minus extension of the files whose name ends in the extension, each renders its content, layouts and unknown names are not found, EvaluateFile equals EvaluateString; faults: for every file of three valid trees (pages, layouts, components, ~ aliases): deleted, dangling symlink, a directory in its place, truncated at every byte prefix, replaced by each of 12 garbage inputs — each both on a fresh process state and after the intact tree had been loaded once in the same process. " +
 			"Oracle for faults: never (tpl, err) / (nil, nil) / panic / hang; a syntactically wrong file or a missing/unreadable layout or component of a page makes loading fail with an error identifying the file; a removed page is simply absent and everything else renders as before. Non-trivial: every fault case; tree cases with a non-canonical spelling or a tricky file name",
 		Bounds: func(tier string) map[string]any {
 			nf := 0
